@@ -56,9 +56,9 @@ pub fn run_line(line: &str, out: &mut String) {
     let mut weaks: Vec<WeakObservable<Val, AsyncLock>> = vec![];
     let mut subs: Vec<SubH> = vec![];
     if head == "unique_async" {
-        unique = Some(Observable::new_async(val(0)));
+        unique = Some(if ops.len() % 2 == 1 { Observable::default() } else { Observable::new_async(val(0)) });
     } else {
-        owners.push(SharedObservable::new_async(val(0)));
+        owners.push(if ops.len() % 2 == 1 { SharedObservable::default() } else { SharedObservable::new_async(val(0)) });
     }
     let mut spec = Spec { cur: 0, shared: head != "unique_async", owners: 1, weaks: 0, unseen: vec![] };
     let mut res: Vec<String> = vec![];
@@ -75,7 +75,7 @@ pub fn run_line(line: &str, out: &mut String) {
             "clone" | "downgrade" => !owners.is_empty(),
             "drop_owner" => unique.is_some() || !owners.is_empty(),
             "into_shared" => unique.is_some(),
-            "upgrade" | "drop_weak" => !weaks.is_empty(),
+            "upgrade" | "drop_weak" | "clone_weak" => !weaks.is_empty(),
             _ => a.first().map_or(false, |k| subs.get(*k as usize).map_or(false, |s| s.sub.is_some())),
         };
         if !possible {
@@ -115,7 +115,7 @@ pub fn run_line(line: &str, out: &mut String) {
                     owners.push(Observable::into_shared(unique.take().unwrap()));
                     "()".into()
                 }
-                _ => sub_op(name, &a, &mut subs),
+                _ => sub_op(name, &a, &mut subs, turn),
             }
         } else if !owners.is_empty()
             && matches!(
@@ -130,6 +130,8 @@ pub fn run_line(line: &str, out: &mut String) {
                 "set" => {
                     if use_guard {
                         now(o.write()).map_or(WB.into(), |mut g| format!("={}", show(ObservableWriteGuard::set(&mut g, val(a[0])))))
+                    } else if turn % 3 == 2 {
+                        o.try_write().map_or(WB.into(), |mut g| format!("={}", show(ObservableWriteGuard::set(&mut g, val(a[0])))))
                     } else {
                         now(o.set(val(a[0]))).map_or(WB.into(), |p| format!("={}", show(p)))
                     }
@@ -155,6 +157,8 @@ pub fn run_line(line: &str, out: &mut String) {
                 "get" => {
                     if use_guard {
                         now(o.read()).map_or(WB.into(), |g| format!("={}", show(*g)))
+                    } else if turn % 3 == 2 {
+                        o.try_read().map_or(WB.into(), |g| format!("={}", show(*g)))
                     } else {
                         now(o.get()).map_or(WB.into(), |p| format!("={}", show(p)))
                     }
@@ -206,7 +210,12 @@ pub fn run_line(line: &str, out: &mut String) {
                     weaks.remove(i);
                     "()".into()
                 }
-                _ => sub_op(name, &a, &mut subs),
+                "clone_weak" => {
+                    let c = weaks[turn % weaks.len()].clone();
+                    weaks.push(c);
+                    "()".into()
+                }
+                _ => sub_op(name, &a, &mut subs, turn),
             }
         };
         let mut wk = vec![];
@@ -257,15 +266,27 @@ pub fn run_line(line: &str, out: &mut String) {
     out.push('\n');
 }
 
-fn sub_op(name: &str, a: &[u32], subs: &mut Vec<SubH>) -> String {
+fn sub_op(name: &str, a: &[u32], subs: &mut Vec<SubH>, turn: usize) -> String {
     let k = a[0] as usize;
     const WB: &str = "WOULDBLOCK";
     match name {
         "poll" => {
+            // Stream impl, next().await polled once, next_ref().await polled once (value copied)
             let waker = subs[k].waker.clone();
             let mut cx = Context::from_waker(&waker);
             let s = subs[k].sub.as_mut().unwrap();
-            match Pin::new(s).poll_next(&mut cx) {
+            let r: Poll<Option<Val>> = match turn % 3 {
+                0 => Pin::new(s).poll_next(&mut cx),
+                1 => {
+                    let mut f = Box::pin(s.next());
+                    f.as_mut().poll(&mut cx)
+                }
+                _ => {
+                    let mut f = Box::pin(s.next_ref());
+                    f.as_mut().poll(&mut cx).map(|o| o.map(|g| *g))
+                }
+            };
+            match r {
                 Poll::Ready(Some(v)) => format!("R:{}", show(v)),
                 Poll::Ready(None) => "N".into(),
                 Poll::Pending => {
@@ -274,7 +295,14 @@ fn sub_op(name: &str, a: &[u32], subs: &mut Vec<SubH>) -> String {
                 }
             }
         }
-        "next_now" => now(subs[k].sub.as_mut().unwrap().next_now()).map_or(WB.into(), |v| format!("={}", show(v))),
+        "next_now" => {
+            let s = subs[k].sub.as_mut().unwrap();
+            if turn % 2 == 0 {
+                now(s.next_now()).map_or(WB.into(), |v| format!("={}", show(v)))
+            } else {
+                now(s.next_ref_now()).map_or(WB.into(), |g| format!("={}", show(*g)))
+            }
+        }
         "sget" => now(subs[k].sub.as_ref().unwrap().get()).map_or(WB.into(), |v| format!("={}", show(v))),
         "sread" => now(subs[k].sub.as_ref().unwrap().read()).map_or(WB.into(), |g| format!("={}", show(*g))),
         "reset" => {
